@@ -171,7 +171,8 @@ Next == \/ DbRun \/ Reset("reset", "ping", "dsc") \/ Dsc \/ Reset("reset2", "pin
 Spec == Init /\ [][Next]_vars
 
 Obs == [cfg |-> cfg, reqs |-> reqs, nmain |-> nmain, mainStart |-> mainStart, mainEnd |-> mainEnd,
-        mainOut |-> mainOut, runEnd |-> runEnd, runOut |-> runOut, open |-> open, db |-> db, files |-> files,
+        mainOut |-> mainOut, runEnd |-> runEnd, runOut |-> runOut, open |-> open,
+        leaked |-> (IF tpOn THEN 1 ELSE 0), db |-> db, files |-> files,
         warnTeardown |-> warnT]
 Done == pc = "done"
 Inv_D1_DbFaultTolerated == Done => D1_DbFaultTolerated(Obs)
